@@ -546,9 +546,9 @@ def correspondence(ctx):
         elif len(jobs2) % 3 == 0 or cfg['shape'][0] <= 64:
             try:
                 cart = bool(len(jobs2) % 2)
+                ctx.case('compose_opd', case, tag='hex/' + ('xy' if cart else 'zernike'))
                 for b in opd_predicates(ap, rng, cart=cart)[:1]:
                     ctx.pred_fail('compose_opd', {**case, 'basis': 'xy' if cart else 'zernike'}, b)
-                ctx.case('compose_opd', case, tag='hex/' + ('xy' if cart else 'zernike'))
             except Exception as ex:
                 ctx.pred_fail('compose_opd', case, f'raised {type(ex).__name__}: {ex}')
 
@@ -705,9 +705,9 @@ def correspondence(ctx):
         if True:
             try:
                 cart = bool(i % 2)
+                ctx.case('compose_opd', cfg, tag='keystone/' + ('xy' if cart else 'zernike'))
                 for b in opd_predicates(ap, rng, kind='key', cart=cart)[:1]:
                     ctx.pred_fail('compose_opd', {**cfg, 'basis': 'xy' if cart else 'zernike'}, b)
-                ctx.case('compose_opd', cfg, tag='keystone/' + ('xy' if cart else 'zernike'))
             except Exception as ex:
                 ctx.pred_fail('compose_opd', {**cfg, 'basis': 'xy' if i % 2 else 'zernike'}, f'keystone compose raised {type(ex).__name__}: {ex}')
 
